@@ -4,6 +4,9 @@ Decided (necessary conditions of the sum identity; the numeric content is not de
   C01.L1  paired update: in every statement suite of the three allocation functions the total
           change of the allocation cells equals the change of the mirror ledger and the negated
           change of the complement ledger (polynomial normal forms), and no ledger changes alone.
+          Suites are read path-wise: a store / booking that follows an `if` and uses a local bound in its
+          arms is read in each arm (tail sinking, Ledgers._sink_tails), and a local bound by a plain
+          assignment stands for its value (snapshot) in its suite and the suites nested in it.
   C01.L2  no dead residual: a complement ledger that is decremented in a loop is read again
           after that loop (its residual must flow into the remainder or a cell).
   C01.L3  remainder provenance: DistributionResult.remaining_power is the complement ledger
@@ -54,8 +57,15 @@ class Ledgers:
         self.mirrors: set[str] = set()
         self.complements: set[str] = set()
         self.suites: list[list[ast.stmt]] = []
-        self._collect_suites(fn.node)
-        self._discover()
+        self._fx: dict[int, tuple[list[ast.stmt], list[tuple[ast.stmt, Poly]], list[tuple[ast.stmt, str, Poly]]]] = {}
+        self._discover_cells()
+        # the ledger view: statements that follow an `if` and book / store a value chosen in its arms are read
+        # in each arm (path-wise), so that a merged store is paired with the arm's ledger update
+        self.lnode: Any = self._sink_tails()
+        self.view = fn if self.lnode is fn.node else FuncInfo(fn.name, fn.module, self.lnode, fn.cls, fn.outer)
+        self._collect_suites(self.lnode)
+        self._walk_suite(self.lnode.body, {})
+        self._discover_ledgers()
 
     def _collect_suites(self, node: ast.AST) -> None:
         for n in ast.walk(node):
@@ -64,11 +74,101 @@ class Ledgers:
                 if isinstance(stmts, list) and stmts and isinstance(stmts[0], ast.stmt) \
                         and not isinstance(n, (ast.ClassDef,)) and not (
                             isinstance(n, (ast.FunctionDef, ast.AsyncFunctionDef, ast.Lambda))
-                            and n is not self.fn.node):
+                            and n is not node):
                     self.suites.append(stmts)
 
+    # ---- merged tails
+    SINK_BUDGET = 600
+    """Upper bound of statements duplicated by tail sinking in one function (beyond it the suites stay as written)."""
+
+    def _ledger_stmt(self, s: ast.stmt) -> bool:
+        """Syntactically a cell store / cell update / `L += e` / `L = L ± e` (ledgers are not known yet)."""
+        if isinstance(s, ast.AugAssign):
+            t = s.target
+            return isinstance(t, ast.Name) or (isinstance(t, ast.Subscript) and u(t.value) in self.cell_dicts) \
+                or (isinstance(t, ast.Attribute) and t.attr == "power" and self.is_cell_obj(t.value))
+        tgt = val = None
+        if isinstance(s, ast.Assign) and len(s.targets) == 1:
+            tgt, val = s.targets[0], s.value
+        elif isinstance(s, ast.AnnAssign) and s.value is not None:
+            tgt, val = s.target, s.value
+        if tgt is None or val is None:
+            return False
+        if isinstance(tgt, ast.Subscript):
+            return u(tgt.value) in self.cell_dicts
+        if isinstance(tgt, ast.Attribute):
+            return tgt.attr == "power" and self.is_cell_obj(tgt.value)
+        return isinstance(tgt, ast.Name) and any(isinstance(x, ast.Name) and x.id == tgt.id for x in ast.walk(val))
+
+    @staticmethod
+    def _falls_through(stmts: list[ast.stmt]) -> bool:
+        if not stmts:
+            return True
+        last = stmts[-1]
+        if isinstance(last, (ast.Continue, ast.Break, ast.Return, ast.Raise)):
+            return False
+        if isinstance(last, ast.If):
+            return Ledgers._falls_through(last.body) or Ledgers._falls_through(last.orelse)
+        return True
+
+    def _sink_tails(self) -> Any:
+        """`if c: A else: B; T` -> `if c: A; T else: B; T` for the statements T up to the last cell / ledger statement
+        that reads a local bound in A or B (an arm that leaves the suite does not get T).  Exact: the paths are the
+        same; only the suites in which L1 sums the changes follow the paths instead of the layout.  Returns the
+        function node itself when there is nothing to sink."""
+        import copy
+
+        budget = [self.SINK_BUDGET]
+        changed = [False]
+
+        def bound_in(stmts: list[ast.stmt]) -> set[str]:
+            out: set[str] = set()
+            for st in stmts:
+                for x in walk_no_nested(st):
+                    if isinstance(x, ast.Name) and isinstance(x.ctx, (ast.Store, ast.Del)):
+                        out.add(x.id)
+            return out
+
+        def reads(st: ast.stmt) -> set[str]:
+            return {x.id for x in walk_no_nested(st) if isinstance(x, ast.Name) and isinstance(x.ctx, ast.Load)}
+
+        def sink(stmts: list[ast.stmt]) -> None:
+            i = 0
+            while i < len(stmts):
+                st = stmts[i]
+                if isinstance(st, ast.If) and i + 1 < len(stmts):
+                    names = bound_in(st.body) | bound_in(st.orelse)
+                    last = max((j for j in range(i + 1, len(stmts)) if self._ledger_stmt(stmts[j])
+                                and reads(stmts[j]) & names), default=None)
+                    fb, fo = self._falls_through(st.body), self._falls_through(st.orelse)
+                    if last is not None and (fb or fo):
+                        tail = stmts[i + 1:last + 1]
+                        size = sum(1 for t in tail for x in ast.walk(t) if isinstance(x, ast.stmt))
+                        if size * (int(fb) + int(fo)) <= budget[0]:
+                            budget[0] -= size * (int(fb) + int(fo))
+                            if fb:
+                                st.body = st.body + copy.deepcopy(tail)
+                            if fo:
+                                st.orelse = st.orelse + copy.deepcopy(tail)
+                            del stmts[i + 1:last + 1]
+                            changed[0] = True
+                for field in ("body", "orelse", "finalbody"):
+                    sub = getattr(st, field, None)
+                    if isinstance(sub, list) and sub and isinstance(sub[0], ast.stmt) \
+                            and not isinstance(st, (ast.FunctionDef, ast.AsyncFunctionDef, ast.ClassDef)):
+                        sink(sub)
+                for h in getattr(st, "handlers", []) or []:
+                    sink(h.body)
+                for c in getattr(st, "cases", []) or []:
+                    sink(c.body)
+                i += 1
+
+        root = copy.deepcopy(self.fn.node)
+        sink(root.body)
+        return root if changed[0] else self.fn.node
+
     # ---- classification of statements
-    def _discover(self) -> None:
+    def _discover_cells(self) -> None:
         fn = self.fn.node
         # dicts of cells, by dataflow rather than by name:
         #   * parameters / locals whose annotation mentions the cell class `_Power`;
@@ -126,34 +226,32 @@ class Ledgers:
             if isinstance(n, ast.Assign) and isinstance(n.value, ast.Subscript) \
                     and u(n.value.value) in self.cell_dicts and isinstance(n.targets[0], ast.Name):
                 self.cell_objs.add(n.targets[0].id)
-        # ledgers
+
+    def _discover_ledgers(self) -> None:
         for suite in self.suites:
             cells = self.cell_deltas(suite)
             if not cells:
                 continue
             cell_sum = sum((d for _s, d in cells), Poly())
-            for s in suite:
-                upd = self.name_update(s)
-                if upd is None:
-                    continue
-                name, delta = upd
+            for _s, name, delta in self.name_updates(suite):
                 if delta == cell_sum and not cell_sum.is_zero():
                     self.mirrors.add(name)
                 if delta == -cell_sum and not cell_sum.is_zero():
                     self.complements.add(name)
 
-    def cell_value(self, e: ast.AST) -> Poly | None:
+    def cell_value(self, e: ast.AST, te: TermEval | None = None) -> Poly | None:
         """Value put into a new cell by storing expression `e` into a cell dict (None: re-store)."""
+        te = te or self.te
         if isinstance(e, ast.Call) and u(e.func) == "_Power":
             kws = {k.arg: k.value for k in e.keywords}
             if "power" in kws:
-                return self.te.ev(kws["power"])
+                return te.ev(kws["power"])
             if len(e.args) >= 2:
-                return self.te.ev(e.args[1])
+                return te.ev(e.args[1])
             raise AnalysisError(f"{self.fn.qual}: _Power(...) without power argument")
         if isinstance(e, ast.Name) and e.id in self.cell_objs:
             return None  # re-storing an existing cell object
-        return self.te.ev(e)
+        return te.ev(e)
 
     def is_cell_obj(self, e: ast.AST) -> bool:
         """A cell object: a local bound to one, or `<cell dict>[key]` itself."""
@@ -161,42 +259,94 @@ class Ledgers:
             return e.id in self.cell_objs
         return isinstance(e, ast.Subscript) and u(e.value) in self.cell_dicts
 
-    def cell_deltas(self, suite: list[ast.stmt]) -> list[tuple[ast.stmt, Poly]]:
-        out = []
-        for s in suite:
-            if isinstance(s, ast.Assign) and len(s.targets) == 1 and isinstance(s.targets[0], ast.Subscript) \
-                    and u(s.targets[0].value) in self.cell_dicts:
-                v = self.cell_value(s.value)
-                if v is not None:
-                    out.append((s, v))
-            elif isinstance(s, ast.AugAssign) and isinstance(s.target, ast.Attribute) \
-                    and s.target.attr == "power" and self.is_cell_obj(s.target.value):
-                d = self.te.ev(s.value)
-                if isinstance(s.op, ast.Sub):
-                    d = -d
-                elif not isinstance(s.op, ast.Add):
-                    raise AnalysisError(f"{self.fn.qual}: cell updated with {type(s.op).__name__}")
-                out.append((s, d))
-            elif isinstance(s, ast.AugAssign) and isinstance(s.target, ast.Subscript) \
-                    and u(s.target.value) in self.cell_dicts:
-                d = self.te.ev(s.value)
-                if isinstance(s.op, ast.Sub):
-                    d = -d
-                elif not isinstance(s.op, ast.Add):
-                    raise AnalysisError(f"{self.fn.qual}: cell updated with {type(s.op).__name__}")
-                out.append((s, d))
-            elif isinstance(s, ast.Assign) and len(s.targets) == 1 and isinstance(s.targets[0], ast.Attribute) \
-                    and s.targets[0].attr == "power" and self.is_cell_obj(s.targets[0].value):
-                # X.power = X.power + e
-                cur = Poly.atom(u(s.targets[0]))
-                out.append((s, self.te.ev(s.value) - cur))
-        return out
+    def _effects(self, suite: list[ast.stmt]) -> tuple[list[tuple[ast.stmt, Poly]], list[tuple[ast.stmt, str, Poly]]]:
+        """(cell changes, name updates) of one suite, read in order: a local bound by a plain assignment earlier in
+        the same suite (`v = min(a, b)` ... `cells[k] = v` / `rem -= v`) stands for the value it was given (its
+        snapshot: later writes to what the value was computed from do not change it)."""
+        got = self._fx.get(id(suite))
+        if got is None or got[0] is not suite:
+            self._walk_suite(suite, {})
+            got = self._fx[id(suite)]
+        return got[1], got[2]
 
-    def name_update(self, s: ast.stmt) -> tuple[str, Poly] | None:
+    def _walk_suite(self, suite: list[ast.stmt], env_in: dict[str, Poly]) -> None:
+        """Effects of `suite` entered with the bindings `env_in`, and (top-down) of the suites nested in it: the arms
+        of an `if` start from the bindings at the `if`; a loop / with / try body from those it does not rebind."""
+        env = dict(env_in)
+        cells: list[tuple[ast.stmt, Poly]] = []
+        upds: list[tuple[ast.stmt, str, Poly]] = []
+        for s in suite:
+            te = TermEval(env=env)
+            c = self._cell_delta(s, te)
+            if c is not None:
+                cells.append((s, c))
+            nu = self.name_update(s, te)
+            if nu is not None:
+                upds.append((s, nu[0], nu[1]))
+            subs = [sub for field in ("body", "orelse", "finalbody") if isinstance(sub := getattr(s, field, None), list)
+                    and sub and isinstance(sub[0], ast.stmt)]
+            subs += [h.body for h in getattr(s, "handlers", []) or []] + [c2.body for c2 in getattr(s, "cases", []) or []]
+            if subs and not isinstance(s, (ast.FunctionDef, ast.AsyncFunctionDef, ast.ClassDef)):
+                inner = dict(env)
+                if not isinstance(s, ast.If) or any(isinstance(x, ast.NamedExpr) for x in ast.walk(s.test)):
+                    for x in walk_no_nested(s):
+                        if isinstance(x, ast.Name) and isinstance(x.ctx, (ast.Store, ast.Del)):
+                            inner.pop(x.id, None)
+                for sub in subs:
+                    self._walk_suite(sub, inner)
+            self._bind(s, env, te)
+        self._fx[id(suite)] = (suite, cells, upds)
+
+    def _bind(self, s: ast.stmt, env: dict[str, Poly], te: TermEval) -> None:
+        tgt = val = None
+        if isinstance(s, ast.Assign) and len(s.targets) == 1:
+            tgt, val = s.targets[0], s.value
+        elif isinstance(s, ast.AnnAssign) and s.value is not None:
+            tgt, val = s.target, s.value
+        if isinstance(tgt, ast.Name) and val is not None and tgt.id not in self.cell_objs \
+                and tgt.id not in self.cell_dicts \
+                and not any(isinstance(x, ast.Name) and x.id == tgt.id for x in ast.walk(val)) \
+                and not any(isinstance(x, (ast.Await, ast.Yield, ast.YieldFrom, ast.NamedExpr, ast.Lambda,
+                                           ast.DictComp, ast.ListComp, ast.SetComp, ast.GeneratorExp, ast.Dict,
+                                           ast.List, ast.Set)) for x in ast.walk(val)):
+            env[tgt.id] = te.ev(val)
+            return
+        for x in walk_no_nested(s):
+            if isinstance(x, ast.Name) and isinstance(x.ctx, (ast.Store, ast.Del)):
+                env.pop(x.id, None)
+
+    def _cell_delta(self, s: ast.stmt, te: TermEval) -> Poly | None:
+        if isinstance(s, ast.Assign) and len(s.targets) == 1 and isinstance(s.targets[0], ast.Subscript) \
+                and u(s.targets[0].value) in self.cell_dicts:
+            return self.cell_value(s.value, te)
+        if isinstance(s, ast.AugAssign) and (
+                (isinstance(s.target, ast.Attribute) and s.target.attr == "power" and self.is_cell_obj(s.target.value))
+                or (isinstance(s.target, ast.Subscript) and u(s.target.value) in self.cell_dicts)):
+            d = te.ev(s.value)
+            if isinstance(s.op, ast.Sub):
+                return -d
+            if not isinstance(s.op, ast.Add):
+                raise AnalysisError(f"{self.fn.qual}: cell updated with {type(s.op).__name__}")
+            return d
+        if isinstance(s, ast.Assign) and len(s.targets) == 1 and isinstance(s.targets[0], ast.Attribute) \
+                and s.targets[0].attr == "power" and self.is_cell_obj(s.targets[0].value):
+            # X.power = X.power + e
+            cur = Poly.atom(u(s.targets[0]))
+            return te.ev(s.value) - cur
+        return None
+
+    def cell_deltas(self, suite: list[ast.stmt]) -> list[tuple[ast.stmt, Poly]]:
+        return list(self._effects(suite)[0])
+
+    def name_updates(self, suite: list[ast.stmt]) -> list[tuple[ast.stmt, str, Poly]]:
+        return list(self._effects(suite)[1])
+
+    def name_update(self, s: ast.stmt, te: TermEval | None = None) -> tuple[str, Poly] | None:
         """`L += e`, `L -= e`, `L = L ± e` on a plain local name -> (L, delta)."""
+        te = te or self.te
         if isinstance(s, ast.AugAssign) and isinstance(s.target, ast.Name) \
                 and isinstance(s.op, (ast.Add, ast.Sub)):
-            d = self.te.ev(s.value)
+            d = te.ev(s.value)
             return s.target.id, (d if isinstance(s.op, ast.Add) else -d)
         tgt = val = None
         if isinstance(s, ast.Assign) and len(s.targets) == 1:
@@ -206,7 +356,9 @@ class Ledgers:
         if isinstance(tgt, ast.Name) and val is not None:
             name = tgt.id
             if any(isinstance(x, ast.Name) and x.id == name for x in ast.walk(val)):
-                d = self.te.ev(val) - Poly.atom(name)
+                env = dict(te.env)
+                env.pop(name, None)
+                d = TermEval(env=env).ev(val) - Poly.atom(name)
                 if name not in d.atoms():
                     return name, d
         return None
@@ -236,11 +388,12 @@ def check_l1(run: Run, prog: Program) -> dict[str, Ledgers]:
             cell_sum = sum((d for _s, d in cells), Poly())
             upd: dict[str, Poly] = {}
             stmts: dict[str, list[ast.stmt]] = {}
-            for s in suite:
-                nu = lg.name_update(s)
-                if nu and nu[0] in ledgers:
-                    upd[nu[0]] = upd.get(nu[0], Poly()) + nu[1]
-                    stmts.setdefault(nu[0], []).append(s)
+            deltas: dict[int, Poly] = {}
+            for s, nm, dl in lg.name_updates(suite):
+                if nm in ledgers:
+                    upd[nm] = upd.get(nm, Poly()) + dl
+                    stmts.setdefault(nm, []).append(s)
+                    deltas[id(s)] = dl
             if not cells and not upd:
                 continue
             if not upd:
@@ -267,17 +420,16 @@ def check_l1(run: Run, prog: Program) -> dict[str, Ledgers]:
                 if delta != want and name in lg.complements and split_role is not None:
                     # `remainder += <residual returned by the per-inverter split>`: the cells changed inside the
                     # split, whose own pairing and residual are decided there and under L3
-                    l1c = CFG(fn.node, fn.file)
-                    l1p = Prov(prog, fn, l1c)
+                    l1c = CFG(lg.view.node, fn.file)
+                    l1p = Prov(prog, lg.view, l1c)
                     extra = Poly()
                     for st in stmts[name]:
                         sites = l1c.nodes_of(st)
-                        nu = lg.name_update(st)
-                        if sites and nu is not None and isinstance(st, ast.AugAssign) and isinstance(st.op, ast.Add):
+                        if sites and isinstance(st, ast.AugAssign) and isinstance(st.op, ast.Add):
                             t = l1p.term(sites[0], st.value)
                             a = t.as_atom()
                             if a in l1p.calls and l1p.calls[a][0] == split_role.name and l1p.calls[a][1] == 1:
-                                extra = extra + nu[1]
+                                extra = extra + deltas[id(st)]
                     delta = delta - extra
                 for s in stmts[name][:1]:
                     run.check(delta == want, "C01.L1", fn.qual, s,
